@@ -13,6 +13,11 @@ using A_pcg = frg::pcg_basic32;
 struct vcomp {
 	bool operator() (const int &a, const int &b);    // stub: member of a small family of strict weak orders
 };
+using A_arr2 = frg::array<int, 2>;
+using A_arr6 = frg::array<int, 6>;
+A_arr6 frgv_concat(const A_arr2 &a, const A_arr3 &b, const A_arr1 &c) {
+	return frg::array_concat<int>(a, b, c);
+}
 void frgv_force(int *b, int *e, vcomp c, A_arr3 &x, A_arr1 &y) {
 	frg::insertion_sort(b, e, c);
 	(void)(x == x);
